@@ -42,6 +42,8 @@ package thrift
 
 //@ spec (*BinaryProtocol).malloc
 //@   props C19 C06
+//@   notypeinv                 // ModifyI32 calls the writers while p.Buf is truncated below p.Read
+//@   requires nonnil: p != nil
 //@   requires size: size > 0 && size <= 8
 //@   ensures ok: r1 == nil
 //@   ensures len: len(p.Buf) == old(len(p.Buf)) + size
@@ -67,6 +69,8 @@ package thrift
 
 //@ spec (*BinaryProtocol).WriteI32
 //@   props C19
+//@   notypeinv
+//@   requires nonnil: p != nil
 //@   use bp_appends(4, bebyte(uint64(uint32(value)), 4, k))
 
 //@ spec (*BinaryProtocol).WriteI64
@@ -194,6 +198,7 @@ package thrift
 
 //@ spec (*BinaryProtocol).ReadString
 //@   props C19 C06 C01
+//@   ensures mono: old(p.Read) <= p.Read && p.Read <= old(p.Read) + 4 + (len(p.Buf) - old(p.Read))
 //@   ensures eof: old(p.Read) + 4 > len(p.Buf) ==> err != nil && p.Read == old(p.Read)
 //@   ensures bad: old(p.Read) + 4 <= len(p.Buf) && (strsz(p.Buf, old(p.Read)) < 0 || int(strsz(p.Buf, old(p.Read))) > len(p.Buf) - old(p.Read) - 4) ==> err != nil
 //@   ensures ok: old(p.Read) + 4 <= len(p.Buf) && strsz(p.Buf, old(p.Read)) >= 0 && int(strsz(p.Buf, old(p.Read))) <= len(p.Buf) - old(p.Read) - 4 ==> \
@@ -205,6 +210,7 @@ package thrift
 
 //@ spec (*BinaryProtocol).ReadBinary
 //@   props C19 C06 C01
+//@   ensures mono: old(p.Read) <= p.Read && p.Read <= old(p.Read) + 4 + (len(p.Buf) - old(p.Read))
 //@   ensures eof: old(p.Read) + 4 > len(p.Buf) ==> err != nil && p.Read == old(p.Read)
 //@   ensures bad: old(p.Read) + 4 <= len(p.Buf) && (strsz(p.Buf, old(p.Read)) < 0 || int(strsz(p.Buf, old(p.Read))) > len(p.Buf) - old(p.Read) - 4) ==> err != nil
 //@   ensures ok: old(p.Read) + 4 <= len(p.Buf) && strsz(p.Buf, old(p.Read)) >= 0 && int(strsz(p.Buf, old(p.Read))) <= len(p.Buf) - old(p.Read) - 4 ==> \
@@ -257,3 +263,195 @@ package thrift
 //@   ensures size: err == nil ==> 0 <= size && size <= 2147483647
 //@   ensures mono: old(p.Read) <= p.Read
 //@   modifies p.Read
+
+// ---- skipping ---------------------------------------------------------------------------------------
+//@ spec (*BinaryProtocol).next_nopanic
+//@   props C19 C06 C01
+//@   requires n: 1 <= n && n <= 16
+//@   ensures ok: old(p.Read) + n <= len(p.Buf) ==> r1 == nil && p.Read == old(p.Read) + n && len(r0) == n && \
+//@       sameregion(r0, p.Buf) && offset(r0) == offset(p.Buf) + old(p.Read)
+//@   ensures eof: old(p.Read) + n > len(p.Buf) ==> r1 != nil && p.Read == old(p.Read)
+//@   modifies p.Read
+
+//@ spec (*BinaryProtocol).skipn
+//@   props C19 C06 C01
+//@   requires n: 0 <= n && n < 1<<40
+//@   ensures ok: old(p.Read) + n <= len(p.Buf) ==> r0 == nil && p.Read == old(p.Read) + n
+//@   ensures eof: old(p.Read) + n > len(p.Buf) ==> r0 != nil && p.Read == old(p.Read)
+//@   modifies p.Read
+
+// the string length is read as an unsigned 32-bit number by the skipper
+//@ spec (*BinaryProtocol).skipstr
+//@   props C19 C06 C01
+//@   ensures ok: old(p.Read) + 4 <= len(p.Buf) && old(p.Read) + 4 + zx(be32(p.Buf, old(p.Read))) <= len(p.Buf) ==> \
+//@       r0 == nil && p.Read == old(p.Read) + 4 + zx(be32(p.Buf, old(p.Read)))
+//@   ensures bad: old(p.Read) + 4 > len(p.Buf) || old(p.Read) + 4 + zx(be32(p.Buf, old(p.Read))) > len(p.Buf) ==> r0 != nil && p.Read == old(p.Read)
+//@   modifies p.Read
+
+//@ spec (*BinaryProtocol).SkipGo
+//@   props C19 C06 C01
+//@   ensures mono: old(p.Read) <= p.Read
+//@   modifies p.Read
+//@   decreases maxDepth
+//@   loop 1
+//@     invariant mono: old(p.Read) <= p.Read
+//@     decreases len(p.Buf) - p.Read
+//@   loop 2
+//@     invariant mono: old(p.Read) <= p.Read
+//@   loop 3
+//@     invariant mono: old(p.Read) <= p.Read
+
+//@ spec (*BinaryProtocol).Skip
+//@   props C19 C06 C01
+//@   ensures mono: old(p.Read) <= p.Read
+//@   modifies p.Read
+
+// ---- message envelope ----------------------------------------------------------------------------------
+// strict header at offset o: negative version word 0x8001____, then name, then seqid
+//@ pure msg_ok(b []byte, o int) bool = o + 12 <= len(b) && int32(be32(b, o)) <= 0 && (int64(int32(be32(b, o))) & 0xffff0000) == 0x80010000 && \
+//@      strsz(b, o+4) >= 0 && int(strsz(b, o+4)) <= len(b) - o - 12
+
+//@ spec (*BinaryProtocol).ReadMessageBegin
+//@   props C19 C06
+//@   ensures ok: msg_ok(p.Buf, old(p.Read)) ==> err == nil && typeID == TMessageType(int32(be32(p.Buf, old(p.Read))) & 0xff) && \
+//@       len(name) == int(strsz(p.Buf, old(p.Read)+4)) && seqID == int32(be32(p.Buf, old(p.Read)+8+len(name))) && p.Read == old(p.Read) + 12 + len(name)
+//@   ensures bad: !msg_ok(p.Buf, old(p.Read)) ==> err != nil
+//@   ensures bytes: err == nil ==> forall i :: 0 <= i && i < len(name) ==> name[i] == p.Buf[old(p.Read)+8+i]
+//@   ensures mono: old(p.Read) <= p.Read
+//@   modifies p.Read
+
+//@ spec (BinaryProtocol).UnwrapBody
+//@   props C19 C06
+//@   ensures bad: !msg_ok(p.Buf, p.Read) ==> r5 != nil
+//@   ensures hdr: r5 == nil ==> r1 == TMessageType(int32(be32(p.Buf, p.Read)) & 0xff) && len(r0) == int(strsz(p.Buf, p.Read+4)) && \
+//@       r2 == int32(be32(p.Buf, p.Read+8+len(r0)))
+//@   ensures name: r5 == nil ==> forall i :: 0 <= i && i < len(r0) ==> r0[i] == p.Buf[p.Read+8+i]
+//@   ensures body: r5 == nil && p.Buf[p.Read+12+len(r0)] != 0 ==> r3 == FieldID(be16(p.Buf, p.Read+13+len(r0))) && sameregion(r4, p.Buf) && \
+//@       offset(r4) == offset(p.Buf) + p.Read + 15 + len(r0) && len(r4) == len(p.Buf) - 1 - (p.Read + 15 + len(r0))
+//@   ensures empty: r5 == nil && p.Buf[p.Read+12+len(r0)] == 0 ==> len(r4) == 0
+
+//@ spec UnwrapBinaryMessage
+//@   props C19 C06
+//@   ensures bad: !msg_ok(buf, 0) ==> err != nil
+//@   ensures hdr: err == nil ==> callType == TMessageType(int32(be32(buf, 0)) & 0xff) && len(name) == int(strsz(buf, 4)) && seqID == int32(be32(buf, 8+len(name)))
+//@   ensures name: err == nil ==> forall i :: 0 <= i && i < len(name) ==> name[i] == buf[8+i]
+//@   ensures body: err == nil && buf[12+len(name)] != 0 ==> structID == FieldID(be16(buf, 13+len(name))) && sameregion(body, buf) && \
+//@       offset(body) == offset(buf) + 15 + len(name) && len(body) == len(buf) - 16 - len(name)
+
+//@ spec WrapBinaryBody
+//@   props C19
+//@   requires small: len(methodName) < 1<<30 && len(body) < 1<<30
+//@   ensures ok: r1 == nil && fresh(r0)
+//@   ensures len: len(r0) == 16 + len(methodName) + len(body)
+//@   ensures version: forall k :: 0 <= k && k < 4 ==> r0[k] == bebyte(uint64(uint32(0x80010000) | uint32(msgTyp)), 4, k)
+//@   ensures namelen: forall k :: 0 <= k && k < 4 ==> r0[4+k] == bebyte(uint64(uint32(int32(len(methodName)))), 4, k)
+//@   ensures name: forall k :: 0 <= k && k < len(methodName) ==> r0[8+k] == methodName[k]
+//@   ensures seq: forall k :: 0 <= k && k < 4 ==> r0[8+len(methodName)+k] == bebyte(uint64(uint32(seqID)), 4, k)
+//@   ensures fieldtype: r0[12+len(methodName)] == 12
+//@   ensures fieldid: forall k :: 0 <= k && k < 2 ==> r0[13+len(methodName)+k] == bebyte(uint64(uint16(structID)), 2, k)
+//@   ensures body: forall k :: 0 <= k && k < len(body) ==> r0[15+len(methodName)+k] == body[k]
+//@   ensures stop: r0[15+len(methodName)+len(body)] == 0
+
+//@ spec GetBinaryMessageHeaderAndFooter
+//@   props C19
+//@   requires small: len(methodName) < 1<<30
+//@   ensures ok: err == nil && len(header) == 15 + len(methodName) && len(footer) == 1 && footer[0] == 0
+//@   ensures version: forall k :: 0 <= k && k < 4 ==> header[k] == bebyte(uint64(uint32(0x80010000) | uint32(msgTyp)), 4, k)
+//@   ensures namelen: forall k :: 0 <= k && k < 4 ==> header[4+k] == bebyte(uint64(uint32(int32(len(methodName)))), 4, k)
+//@   ensures name: forall k :: 0 <= k && k < len(methodName) ==> header[8+k] == methodName[k]
+//@   ensures seq: forall k :: 0 <= k && k < 4 ==> header[8+len(methodName)+k] == bebyte(uint64(uint32(seqID)), 4, k)
+//@   ensures fieldtype: header[12+len(methodName)] == 12
+//@   ensures fieldid: forall k :: 0 <= k && k < 2 ==> header[13+len(methodName)+k] == bebyte(uint64(uint16(structID)), 2, k)
+
+// ---- in-place encoders / decoders over caller-provided windows -------------------------------------------
+//@ spec (BinaryEncoding).EncodeBool
+//@   props C19
+//@   requires len(b) >= 1
+//@   ensures b[0] == ite(v, byte(1), byte(0))
+//@   modifies b[0:1]
+
+//@ spec (BinaryEncoding).EncodeByte
+//@   props C19
+//@   requires len(b) >= 1
+//@   ensures b[0] == v
+//@   modifies b[0:1]
+
+//@ spec (BinaryEncoding).EncodeInt16
+//@   props C19
+//@   requires len(b) >= 2
+//@   ensures be16(b, 0) == uint16(v)
+//@   modifies b[0:2]
+
+//@ spec (BinaryEncoding).EncodeInt32
+//@   props C19
+//@   requires len(b) >= 4
+//@   ensures be32(b, 0) == uint32(v)
+//@   modifies b[0:4]
+
+//@ spec (BinaryEncoding).EncodeInt64
+//@   props C19
+//@   requires len(b) >= 8
+//@   ensures be64(b, 0) == uint64(v)
+//@   modifies b[0:8]
+
+//@ spec (BinaryEncoding).EncodeDouble
+//@   props C19
+//@   requires len(b) >= 8
+//@   ensures be64(b, 0) == bits(v)
+//@   modifies b[0:8]
+
+//@ spec (BinaryEncoding).EncodeFieldBegin
+//@   props C19
+//@   requires len(b) >= 3
+//@   ensures b[0] == byte(t) && be16(b, 1) == uint16(id)
+//@   modifies b[0:3]
+
+//@ spec (BinaryEncoding).DecodeBool
+//@   props C19 C01
+//@   requires len(b) >= 1
+//@   ensures r0 == (b[0] == 1)
+
+//@ spec (BinaryEncoding).DecodeByte
+//@   props C19 C01
+//@   requires len(b) >= 1
+//@   ensures r0 == b[0]
+
+//@ spec (BinaryEncoding).DecodeInt16
+//@   props C19 C01
+//@   requires len(b) >= 2
+//@   ensures r0 == int16(be16(b, 0))
+
+//@ spec (BinaryEncoding).DecodeInt32
+//@   props C19 C01
+//@   requires len(b) >= 4
+//@   ensures r0 == int32(be32(b, 0))
+
+//@ spec (BinaryEncoding).DecodeInt64
+//@   props C19 C01
+//@   requires len(b) >= 8
+//@   ensures r0 == int64(be64(b, 0))
+
+//@ spec (BinaryEncoding).DecodeDouble
+//@   props C19 C01
+//@   requires len(b) >= 8
+//@   ensures bits(r0) == be64(b, 0)
+
+// the decoders of length-prefixed values trust the prefix: callers must have validated the window
+//@ spec (BinaryEncoding).DecodeString
+//@   props C19 C01
+//@   requires len(b) >= 4 && strsz(b, 0) >= 0 && 4 + int(strsz(b, 0)) <= len(b)
+//@   ensures len(value) == int(strsz(b, 0)) && sameregion(value, b) && offset(value) == offset(b) + 4
+
+//@ spec (BinaryEncoding).DecodeBytes
+//@   props C19 C01
+//@   requires len(b) >= 4 && strsz(b, 0) >= 0 && 4 + int(strsz(b, 0)) <= len(b)
+//@   ensures len(value) == int(strsz(b, 0)) && sameregion(value, b) && offset(value) == offset(b) + 4
+
+//@ spec (*BinaryProtocol).ModifyI32
+//@   props C19 C05
+//@   requires pos: 0 <= pos && pos < 1<<40
+//@   ensures short: len(p.Buf) < pos + 4 ==> r0 != nil
+//@   ensures ok: len(p.Buf) >= pos + 4 ==> r0 == nil && be32(p.Buf, pos) == uint32(value) && len(p.Buf) == old(len(p.Buf)) && same(p.Buf, old(p.Buf))
+//@   ensures others: forall i :: 0 <= i && i < len(p.Buf) && (i < pos || i >= pos + 4) ==> p.Buf[i] == old(p.Buf[i])
+//@   ensures read: p.Read == old(p.Read)
+//@   modifies p.Buf, p.Buf[pos:pos+4] if len(p.Buf) >= pos + 4
